@@ -129,7 +129,9 @@ def unit_scaling_backend(
                 elif node.target in U.torch_map:
                     target_fn = U.torch_map[node.target]
                     logger.info("unit scaling function: %s", node)
-                    replace_node_with_function(graph, node, target_fn)
+                    # nn.Softmax passes the private `_stacklevel` argument of F.softmax
+                    kwargs = {k: v for k, v in node.kwargs.items() if k != "_stacklevel"}
+                    replace_node_with_function(graph, node, target_fn, kwargs=kwargs)
 
         # Add metadata denoting the dependencies of every node in the graph
         _add_dependency_meta(graph)
